@@ -12,7 +12,7 @@ deletion), and for each one:
 Prints one line per mutant: KILLED-BY-SUITE / DETECTED <check> / SURVIVED / INCONCLUSIVE, and keeps the
 survivors' diffs under the output directory for triage (survivors are equivalent mutants or gaps).
 
-usage: tools/mutate.py <out dir> [--files f1,f2] [--max N] [--stride K] [--offset J] [--ops 1|2] [--list]
+usage: tools/mutate.py <out dir> [--files f1,f2] [--max N] [--stride K] [--offset J] [--ops 1|2] [--list] [--only-file tags.txt]
 """
 import os, re, shutil, subprocess, sys, tempfile, json, hashlib
 
@@ -135,7 +135,7 @@ def run(cmd, cwd, timeout):
 def main():
     out = sys.argv[1]
     os.makedirs(out, exist_ok=True)
-    files, maxn, stride, offset, ops = FILES, 10**9, 1, 0, "1"
+    files, maxn, stride, offset, ops, only = FILES, 10**9, 1, 0, "1", None
     args = sys.argv[2:]
     while args:
         a = args.pop(0)
@@ -145,6 +145,7 @@ def main():
         elif a == "--offset": offset = int(args.pop(0))
         elif a == "--ops": ops = args.pop(0)
         elif a == "--list": ops = ops + "L"
+        elif a == "--only-file": only = set(l.strip() for l in open(args.pop(0)) if l.strip())
     scratch = tempfile.mkdtemp(prefix="verif-mutate-", dir="/tmp")
     try:
         subprocess.run(["cp", "-r", REPO + "/.", scratch], check=True)
@@ -153,6 +154,8 @@ def main():
         for f in files:
             orig = open(os.path.join(REPO, f)).read()
             for (ln, desc, mutated) in (mutants2_of(f, orig) if ops.startswith("2") else mutants_of(f, orig)):
+                if only is not None and ("%s:%d %s" % (f, ln + 1, desc)) not in only:
+                    continue
                 idx += 1
                 if (idx - 1) % stride != offset:
                     continue
